@@ -94,6 +94,9 @@ def spelled(spec, Px, Pn, kw):
     return w
 
 
+_RC = [0]
+
+
 def rand_kwargs(rng, cc, pre, D, auto_ok):
     kw = {}
     if cc == 0 and rng.random() < 0.6:
@@ -104,14 +107,16 @@ def rand_kwargs(rng, cc, pre, D, auto_ok):
         kw['atf_kwargs'] = {'use_eig': True}
     if cc == 3:
         if not auto_ok or rng.random() < 0.6:
-            kw['ref_channel'] = int(rng.integers(0, D))
+            _RC[0] += 1
+            kw['ref_channel'] = (0, D - 1, int(rng.integers(0, D)))[_RC[0] % 3]        # channel 0 is falsy: stratified
         if rng.random() < 0.2:
             kw['eps'] = 1e-10
     if cc == 4 and rng.random() < 0.4:
         kw['use_eig'] = True
     if cc == 5:
         if not auto_ok or rng.random() < 0.6:
-            kw['reference_channel'] = int(rng.integers(0, D))
+            _RC[0] += 1
+            kw['reference_channel'] = (0, D - 1, int(rng.integers(0, D)))[_RC[0] % 3]
         if rng.random() < 0.6:
             kw['distortion_weight'] = float(rng.choice([0.0, 0.5, 1.0, 7.0, 100.0]))
     if pre == 1 and rng.random() < 0.4:
